@@ -157,6 +157,48 @@ def gen_reuse(rng):
     return "scn udp %d %s" % (bw, " ".join(ops))
 
 
+def gen_release_rounds(rng, rounds=None):
+    """Callers that release their response the moment the call returns and keep issuing requests, answered by separate
+    CONFIRMABLE responses whose acknowledgement is held up in the socket (`gate` … `open`): the receive path that delivered
+    the response is still busy with it while the caller has already given it back and the pool is re-used at once.  Every
+    token and content is unique, one to three requests are outstanding; a response object that is owned twice shows as a
+    caller returning without its own token / content, a crash, or a request leaving with a foreign token."""
+    bw = rng.choice([0, 0, 1])
+    ops = []
+    out = []            # (caller, tok, typ) outstanding
+    k = 0
+    mid = 43000
+
+    def start():
+        nonlocal k
+        k += 1
+        tok = "%02x%04x" % (rng.randrange(1, 256), k)
+        typ = rng.choice(["con", "non"])
+        ops.append("do:%d:%s:%s" % (k, tok, typ))
+        out.append((k, tok, typ))
+    for _ in range(rounds or rng.randint(24, 40)):
+        for _ in range(rng.choice([1, 1, 2]) if len(out) < 3 else 0):
+            start()
+        if not out:
+            start()
+        rng.shuffle(out)
+        for c, tok, typ in out[:rng.randint(1, len(out))]:
+            out.remove((c, tok, typ))
+            if typ == "con" and rng.random() < 0.5:
+                ops.append("peer:ack:-:@%d:0" % c)
+            mid += 1
+            kind = "con" if rng.random() < 0.85 else "non"
+            if kind == "con":
+                ops.append("gate")
+            ops.append("peer:%s:%s:%d:c%d" % (kind, tok, mid, c))
+            if kind == "con":
+                if rng.random() < 0.5 and len(out) < 3:
+                    start()                 # the pool is used again while the receive path is still in its ACK
+                ops.append("open")
+    ops.append("settle")
+    return "scn udp %d %s" % (bw, " ".join(ops))
+
+
 def gen_scenario(rng, racy=False, collide=False, siblings=False):
     tr = rng.choice(["udp", "udp", "tcp"])
     bw = rng.choice([0, 0, 1])
@@ -382,6 +424,9 @@ def gen_lines(ctx):
         L += retransmit_templates(rand_token(rng), 10 + n, rand_token(rng))
     for _ in range(3000 if thorough else 400):
         L.append(gen_reuse(rng))
+    # early release + delayed ACK of separate confirmable responses, a few dozen rounds per connection
+    for _ in range(400 if thorough else 60):
+        L.append(gen_release_rounds(rng))
     for _ in range(6000 if thorough else 600):
         L.append(gen_racy(rng))
     for i in range(3000 if thorough else 450):
@@ -416,9 +461,62 @@ def nontrivial(line, obs):
     return hit
 
 
+def _run_chunk(ctx, exe, lines, tag):
+    """One run of the harness binary on `lines` (as common.run_test_harness, without its bookkeeping); None if the process died."""
+    import subprocess
+    inp = os.path.join(ctx.work, tag + ".in")
+    outp = os.path.join(ctx.work, tag + ".out")
+    open(inp, "w").write("\n".join(lines) + "\n")
+    if os.path.exists(outp):
+        os.remove(outp)
+    e = dict(os.environ, VERIF_IN=inp, VERIF_OUT=outp, VERIF_SEED=str(ctx.seed), VERIF_TIER=ctx.tier)
+    try:
+        p = subprocess.run([exe, "-test.run", "^TestC03$", "-test.timeout", "600s"], cwd=ctx.work, env=e,
+                           stdout=subprocess.PIPE, stderr=subprocess.STDOUT, text=True, timeout=630)
+    except subprocess.TimeoutExpired:
+        return None
+    out = open(outp).read().splitlines() if os.path.exists(outp) else []
+    if p.returncode != 0 or len(out) != len(lines):
+        return None
+    return out
+
+
+def run_resilient(ctx, art, lines, tag):
+    """The harness process runs every scenario; a panic on a goroutine of the library (not a caller's, which the harness
+    recovers) kills the process and with it the output of all scenarios.  Such a crash is an observation about one scenario:
+    the run is repeated on halves until the scenarios that kill the process on their own are isolated; they are reported as
+    `panic:process-crash` (clause no-crash, with replay), the others are evaluated normally."""
+    impl = common.run_test_harness(ctx, art["test"], "TestC03", lines, tag=tag)
+    if impl is not None and len(impl) == len(lines):
+        return impl
+    entry = ctx.broken.pop() if ctx.broken and ctx.broken[-1][1].startswith("harness TestC03") else None
+    crashes = [0]
+
+    def go(ls):
+        if crashes[0] >= 8:
+            return ["skipped"] * len(ls)
+        out = _run_chunk(ctx, art["test"], ls, tag + "b")
+        if out is not None:
+            return out
+        if len(ls) == 1:
+            crashes[0] += 1
+            return ["panic:process-crash"]
+        m = len(ls) // 2
+        return go(ls[:m]) + go(ls[m:])
+    res = []
+    n = max(1, len(lines) // 16)
+    for i in range(0, len(lines), n):
+        res += go(lines[i:i + n])
+    if crashes[0] == 0 and entry is not None:
+        ctx.broken.append(entry)          # the process died but no scenario reproduces it on its own
+    elif crashes[0]:
+        ctx.notes.append("the harness process was killed by a panic on a library goroutine; %d scenario(s) isolated by bisection" % crashes[0])
+    return res
+
+
 def evaluate(ctx, art, lines, tag="x"):
     """Runs lines through implementation, model and judge. Returns [(line, impl, model|None, judge)] or None."""
-    impl = common.run_test_harness(ctx, art["test"], "TestC03", lines, tag=tag)
+    impl = run_resilient(ctx, art, lines, tag)
     if impl is None or len(impl) != len(lines):
         return None
     rc, model, _ = common.pipe_lines([art["driver"], "model"], lines)
@@ -439,6 +537,9 @@ def explore(ctx, art):
     mism = 0
     for line, impl, model, judge, cls in res:
         racy = "+" in line
+        if impl == "skipped":
+            ctx.count("skipped-after-process-crash")
+            continue
         ctx.cov["evaluations"] += 1
         if line.startswith("disc"):
             ctx.count("discovery" + ("-skipped" if impl.startswith("skip") else ""))
